@@ -735,3 +735,18 @@ vharness! {
         std::mem::forget(path);
     }
 }
+
+/// Pre-loads the path with one spurious-wakeup decision already advanced to
+/// `true` (as Path::step leaves it), cursor at the start.
+pub(crate) fn seed_spurious_true(path: &mut Path) {
+    let ex = path.exploring;
+    path.branches.insert(Spurious { spur: true, exploring: ex });
+    path.pos = 0;
+}
+
+/// One spurious-wakeup decision (value `false`, alternative unexplored), fully
+/// traversed by the iteration that just ended.
+pub(crate) fn seed_spurious_false_traversed(path: &mut Path) {
+    path.branches.insert(Spurious { spur: false, exploring: true });
+    path.pos = 1;
+}
